@@ -124,6 +124,14 @@ type c16Defs struct {
 	Wrapper   string // a file which only includes the callable file ("" if none)
 	// callables can be found without mro_file (top-level files of MROPATH)
 	NoIncludeOK bool
+	// Extra MROPATH entries searched before Dir (layout 4: a sibling directory
+	// whose name is a string prefix of Dir's)
+	ExtraPaths []string
+}
+
+// mroPaths: the MROPATH of the definition set.
+func (d *c16Defs) mroPaths() []string {
+	return append(append([]string{}, d.ExtraPaths...), d.Dir)
 }
 
 func (d *c16Defs) structOf(name string) *c16Struct {
@@ -210,7 +218,16 @@ func c16WriteParams(sb *strings.Builder, ins []c16Field) {
 
 // c16GenDefs generates one definition set and writes it below dir.
 func c16GenDefs(r *rand.Rand, dir string, idx int) (*c16Defs, error) {
-	d := &c16Defs{Dir: dir, Layout: r.Intn(4), Files: map[string]string{}}
+	d := &c16Defs{Dir: dir, Layout: r.Intn(5), Files: map[string]string{}}
+	if d.Layout == 4 {
+		// two MROPATH entries, the first a string prefix (not a path prefix)
+		// of the second, which holds the definitions in a sub directory
+		d.ExtraPaths = []string{dir}
+		os.MkdirAll(dir, 0755)
+		os.WriteFile(filepath.Join(dir, "unrelated.mro"), []byte("filetype unrelated;\n"), 0644)
+		d.Dir = dir + []string{"_v2", "2", "-next"}[r.Intn(3)]
+		dir = d.Dir
+	}
 	fts := []string{"bam", "vcf.gz", "txt"}
 	for _, i := range r.Perm(len(fts))[:r.Intn(3)] {
 		d.FileTypes = append(d.FileTypes, fts[i])
@@ -237,7 +254,7 @@ func c16GenDefs(r *rand.Rand, dir string, idx int) (*c16Defs, error) {
 		types.WriteString(")\n\n")
 	}
 	callFile := "defs.mro"
-	if d.Layout == 2 {
+	if d.Layout == 2 || d.Layout == 4 {
 		callFile = "sub/stages.mro"
 	}
 	nc := 1 + r.Intn(2)
@@ -281,7 +298,7 @@ func c16GenDefs(r *rand.Rand, dir string, idx int) (*c16Defs, error) {
 		d.Wrapper = "top.mro"
 		d.Files["top.mro"] = "@include \"defs.mro\"\n\nfiletype wrapft;\n"
 	}
-	d.NoIncludeOK = d.Layout != 2
+	d.NoIncludeOK = d.Layout != 2 && d.Layout != 4
 	for name, text := range d.Files {
 		fp := filepath.Join(dir, name)
 		if err := os.MkdirAll(filepath.Dir(fp), 0755); err != nil {
